@@ -206,6 +206,55 @@ spec fn step<K>(m0: Map<(MetricKind, K), (Generation, Instant)>, m1: Map<(Metric
 
 
 impl<K> Recency<K> where K: Clone + Eq + Hashable {
+
+//@ITEM file=metrics-util/src/registry/recency.rs sel=impl<K> Recency<K> where.* :: fn should_store_counter ret=keep
+//@REWRITE SPEC-closure re:\|registry, key\| \{ ==> |registry: &Registry<K, S>, key: &K| -> (r: bool) ensures registry.deleted(MetricKind::Counter, key, r), {
+//@SPEC
+    requires
+        obeys_key_model::<K>(),
+//@IF file=metrics-util/src/registry/recency.rs sel=struct Recency contains=HashMap<K, (Generation, Instant)>)>
+//@ELSE
+        obeys_key_model::<(MetricKind, K)>(),
+//@ENDIF
+        forall|a: K, b: K| #[trigger] call_ensures(K::clone, (&a,), b) ==> a == b,
+    ensures
+        // the counter wrapper drops a series only through the registry's counter deletion, and only if that confirmed the entry
+        !keep ==> registry.deleted_counter(key, true),
+        (self.idle_timeout is None || !self.mask.covers(MetricKind::Counter)) ==> keep,
+//@END
+
+//@ITEM file=metrics-util/src/registry/recency.rs sel=impl<K> Recency<K> where.* :: fn should_store_gauge ret=keep
+//@REWRITE SPEC-closure re:\|registry, key\| \{ ==> |registry: &Registry<K, S>, key: &K| -> (r: bool) ensures registry.deleted(MetricKind::Gauge, key, r), {
+//@SPEC
+    requires
+        obeys_key_model::<K>(),
+//@IF file=metrics-util/src/registry/recency.rs sel=struct Recency contains=HashMap<K, (Generation, Instant)>)>
+//@ELSE
+        obeys_key_model::<(MetricKind, K)>(),
+//@ENDIF
+        forall|a: K, b: K| #[trigger] call_ensures(K::clone, (&a,), b) ==> a == b,
+    ensures
+        // the gauge wrapper drops a series only through the registry's gauge deletion, and only if that confirmed the entry
+        !keep ==> registry.deleted_gauge(key, true),
+        (self.idle_timeout is None || !self.mask.covers(MetricKind::Gauge)) ==> keep,
+//@END
+
+//@ITEM file=metrics-util/src/registry/recency.rs sel=impl<K> Recency<K> where.* :: fn should_store_histogram ret=keep
+//@REWRITE SPEC-closure re:\|registry, key\| \{ ==> |registry: &Registry<K, S>, key: &K| -> (r: bool) ensures registry.deleted(MetricKind::Histogram, key, r), {
+//@SPEC
+    requires
+        obeys_key_model::<K>(),
+//@IF file=metrics-util/src/registry/recency.rs sel=struct Recency contains=HashMap<K, (Generation, Instant)>)>
+//@ELSE
+        obeys_key_model::<(MetricKind, K)>(),
+//@ENDIF
+        forall|a: K, b: K| #[trigger] call_ensures(K::clone, (&a,), b) ==> a == b,
+    ensures
+        // the histogram wrapper drops a series only through the registry's histogram deletion, and only if that confirmed the entry
+        !keep ==> registry.deleted_histogram(key, true),
+        (self.idle_timeout is None || !self.mask.covers(MetricKind::Histogram)) ==> keep,
+//@END
+
 //@ITEM file=metrics-util/src/registry/recency.rs sel=impl<K> Recency<K> where.* :: fn should_store ret=keep
 //@SPEC
     requires
